@@ -350,7 +350,7 @@ def parse_shim(path):
 
 def run_breadlog(built, box, config, check=False, cwd=None, rules=None, shim=False, trace=False,
                  strace=False, timeout=120, env_extra=None, tmpdir=None, cfg_arg=None, async_signal=None, stdio_ops=False, stdin_tty=False,
-                 argv_override=None, wrap=None, read_ops=False, nofile=None):
+                 argv_override=None, wrap=None, read_ops=False, nofile=None, on_first_fire=None):
     """Run the real binary once. config: absolute path of the yaml (cfg_arg overrides what is passed)."""
     argv = [built.path, "-c", cfg_arg or config]
     if check:
@@ -401,6 +401,30 @@ def run_breadlog(built, box, config, check=False, cwd=None, rules=None, shim=Fal
     if pty_fds:
         os.close(pty_fds[1])
     rec.timed_out = False
+    watcher = None
+    if on_first_fire and shimlog:
+        # "another process acts while breadlog is at operation k": the callable runs as soon as the shim log shows that an
+        # injected action (typically a delay) has fired - deterministic in terms of operations, not of wall-clock time
+        import threading
+
+        def _watch():
+            pos = 0
+            while p.poll() is None:
+                try:
+                    with open(shimlog, "r", errors="replace") as f:
+                        f.seek(pos)
+                        chunk = f.read()
+                        pos = f.tell()
+                except OSError:
+                    chunk = ""
+                if "\nF " in "\n" + chunk:
+                    try:
+                        on_first_fire()
+                    finally:
+                        return
+                time.sleep(0.003)
+        watcher = threading.Thread(target=_watch, daemon=True)
+        watcher.start()
     try:
         if async_signal:
             delay, signo = async_signal
